@@ -254,7 +254,56 @@ func (sa *Safe) builtin(fr *frame, st *State, x *ssa.Call, b *ssa.Builtin) {
 		fr.regs[x] = r
 	case "delete", "print", "println":
 	case "min", "max":
-		fr.regs[x] = sa.freshM(fr, st, x.Type(), exprText(x), nilMaybe)
+		// integers: the result is bounded by every argument (min: r <= a_i and r >= the least lower
+		// bound; max: mirrored); a provably smallest / largest argument is the result itself
+		allInt := len(args) > 0
+		for _, a := range args {
+			if a.Kind != avInt || a.Lin == nil {
+				allInt = false
+			}
+		}
+		if !allInt {
+			fr.regs[x] = sa.freshM(fr, st, x.Type(), exprText(x), nilMaybe)
+			return
+		}
+		isMin := b.Name() == "min"
+		for i, a := range args {
+			best := true
+			for j, o := range args {
+				if i == j {
+					continue
+				}
+				d := a.Lin.add(o.Lin, -1) // a - o
+				if !isMin {
+					d = d.scale(-1)
+				}
+				if !st.prove(d) {
+					best = false
+				}
+			}
+			if best {
+				fr.regs[x] = AVal{Kind: avInt, Lin: a.Lin, Type: x.Type()}
+				return
+			}
+		}
+		iv := st.linItv(args[0].Lin)
+		for _, a := range args[1:] {
+			ai := st.linItv(a.Lin)
+			if isMin {
+				iv = Itv{minI64(iv.Lo, ai.Lo), minI64(iv.Hi, ai.Hi)}
+			} else {
+				iv = Itv{maxI64(iv.Lo, ai.Lo), maxI64(iv.Hi, ai.Hi)}
+			}
+		}
+		r := sa.boundedAtom(fr, st, x.Type(), exprText(x), iv)
+		for _, a := range args {
+			d := r.Lin.add(a.Lin, -1) // r - a <= 0 for min
+			if !isMin {
+				d = d.scale(-1)
+			}
+			st.assume(d)
+		}
+		fr.regs[x] = r
 	default:
 		sa.unsup(x.Pos(), "builtin %s in %s", b.Name(), fr.fn.String())
 		sa.bindFresh(fr, st, x)
@@ -808,4 +857,19 @@ func (sa *Safe) pruneFacts(st *State, vals []AVal) {
 			}
 		}
 	}
+}
+
+
+func minI64(a, b int64) int64 {
+	if a < b {
+		return a
+	}
+	return b
+}
+
+func maxI64(a, b int64) int64 {
+	if a > b {
+		return a
+	}
+	return b
 }
